@@ -1,21 +1,225 @@
-"""C09 – lifecycle property, see vf/life.py (engine + oracle_c09)."""
+"""C09 – operations end in bounded time with a classified error; first cause wins.
+
+Layer S, vf.life engine, fault alphabet extended with OS-resolver error/empty/hang,
+TCP connect error/hang over 1-3 addresses, silence at each protocol step and
+wrong-order responses.  Oracles: (1) every awaited operation is finished at
+quiescence and its virtual duration is within its documented bound; (2) whatever
+it raises is an APIConnectionError (CancelledError only if the harness cancelled
+that very task); (3) first cause wins – metamorphic: for an immediately effective
+first fault f1 and any later faults f2, the outcome of every operation and the
+stop-callback argument equal those of the run with f1 alone.
+"""
 from __future__ import annotations
 
+import copy
+
+from hypothesis import strategies as st
+
 from vf import life
-from vf.props._lifeprop import run_with
+from vf.props._lifeprop import classify, run_with
+from vf.runner import CaseResult, HarnessError, Violation
 
 ID = "C09"
-LEVEL = "exploration"
-RULE = "placeholder"
-ASSUMPTIONS = []
-BUDGET = {"quick": {"examples": 800, "shards": 4}, "thorough": {"examples": 20000, "shards": 16}}
+LEVEL = "fault_enumeration"
+RULE = (
+    "fault enumeration + generated fault sequences: lifecycle schedules (see C05) with, in addition, 1-3 configured "
+    "addresses (IP literals and FQDNs answered by a scripted OS resolver: results|empty|error|hang) and one scripted "
+    "outcome per TCP attempt (ok|refused|unreachable|hang), a device that is silent from the start or from a given "
+    "instant, and wrong-order/duplicate hello/connect answers. Operations: connect (or start+finish), device_info "
+    "requests, disconnect(), force disconnect. Enumerated: every cause at every loop iteration of the golden scenarios "
+    "(shared with C08), the resolver x TCP outcome matrix, and the first-cause table: f1 in {0x01 preamble, bad "
+    "preamble, undecodable payload, bad MAC, EOF, DisconnectRequest} x stage in {hello pending, request pending, idle} x "
+    "f2 in {trailing frames in the same chunk, EOF, reset, garbage, disconnect(), force} (same instant / later). "
+    "non-trivial = a fault or close cause occurred while at least one awaited operation was pending."
+)
+ASSUMPTIONS = [
+    "bounds: connect <= 30 s resolve + 60 s per resolved address + 30 s handshake + 30 s hello; request <= its timeout; disconnect <= 5 s + 10 s",
+    "'never hangs' is decided as: finished at loop quiescence (or the 4000 s virtual horizon) and within the bound",
+    "RuntimeError for calling a phase on a connection in the wrong state is documented misuse; generators avoid it",
+    "mDNS names are exercised in C20; here only literals and names that go to the OS resolver",
+]
+EXHAUSTIVE_NOTE = "resolver x TCP outcome matrix for <=2 addresses; first-cause table; single-cause sweep over connect-only golden scenarios"
+BUDGET = {"quick": {"examples": 500, "shards": 6}, "thorough": {"examples": 15000, "shards": 16}}
+FLOORS = {"fault_while_op_pending": 0.25}
+
+# faults that close the connection inside the very data_received/eof_received call.  A frame that
+# fails authentication is NOT in this list: its InvalidTag leaves data_received as an exception and
+# only takes effect with connection_lost one turn later, so a user call in between legitimately wins.
+IMMEDIATE_F1 = [["reqenc"], ["garbage"], ["badproto"], ["discreq"]]
+
+
+def _outcomes(obs) -> dict:
+    out = {}
+    for name, r in obs.results.items():
+        out[name] = "ok" if r[0] == "ok" else type(r[1]).__name__
+    out["__on_stop__"] = [e["arg"] for e in obs.trace if e["kind"] == "on_stop"]
+    return out
 
 
 def run_case(case):
-    res = run_with(ID, case)
-    res.nontrivial = "close_before_main_end" in res.classes
+    if case.get("kind") != "first_cause":
+        res = run_with(ID, case)
+        res.nontrivial = "fault_while_op_pending" in res.classes
+        return res
+    base = case["base"]
+    f1 = case["f1"]
+    one = {**copy.deepcopy(base), "events": list(base.get("events") or []) + [f1]}
+    f1b = dict(f1)
+    if case.get("f2_trailer") and f1.get("do") == "chunk":
+        f1b = {**f1, "frames": list(f1["frames"]) + list(case["f2_trailer"])}
+    two = {**copy.deepcopy(base), "events": list(base.get("events") or []) + [f1b] + list(case.get("f2") or [])}
+    o1 = life.run(one)
+    o2 = life.run(two)
+    for o in (o1, o2):
+        if o.harness_error:
+            raise HarnessError(f"C09: {o.harness_error} in {case}")
+    res = CaseResult()
+    res.violations = life.oracle_c09(o1) + life.oracle_c09(o2)
+    a, b = _outcomes(o1), _outcomes(o2)
+    f1_idx = len(base.get("events") or [])
+    if any(s.startswith(f"{f1_idx}:") for s in o1.skipped) or any(s.startswith(f"{f1_idx}:") for s in o2.skipped):
+        # f1 could not be delivered (no transport yet / already closed): the pair says nothing
+        res.classes = ["first_cause_pair", "f1_skipped"]
+        res.info = {"f1_alone": a, "with_f2": b}
+        return res
+    for k in a:
+        if k in b and a[k] != b[k]:
+            stage = case.get("stage", "?")
+            res.violations.append(
+                Violation(
+                    ID,
+                    f"c09:first-cause-masked:{'+'.join(f1.get('frames', [f1['do']]))}:{k if k != '__on_stop__' else 'on_stop'}:{a[k]}->{b[k]}",
+                    f"stage={stage}: with the first fault alone {k} -> {a[k]}; with later faults added -> {b[k]}",
+                )
+            )
+    res.classes = sorted(classify(o2, two) | {"first_cause_pair"})
+    res.nontrivial = "fault_while_op_pending" in res.classes
+    res.info = {"f1_alone": a, "with_f2": b}
     return res
 
 
+# ------------------------------------------------------------------ generators
+HOSTS = ["10.0.0.1", "10.0.0.7", "fd00::1", "a.example.com", "b.example.com"]
+
+
+@st.composite
+def _net_case(draw, tier):
+    c = draw(life.case_strategy(tier, max_events=2))
+    n = draw(st.integers(1, 3))
+    addrs = draw(st.lists(st.sampled_from(HOSTS), min_size=n, max_size=n, unique=True))
+    c["addresses"] = addrs
+    dns = {}
+    for a in addrs:
+        if a.endswith(".com"):
+            dns[a] = draw(
+                st.sampled_from(
+                    [["ok", ["10.1.0.1"], 2], ["ok", ["10.1.0.1", "fd00::9"], 1], ["ok", ["10.1.0.1", "10.1.0.2", "10.1.0.3"], 1],
+                     ["empty", 1], ["error", 1], ["error", 300], ["hang"], ["ok", ["10.1.0.4"], 64 * 29], ["ok", ["10.1.0.4"], 64 * 31]]
+                )
+            )
+    if dns:
+        c["dns"] = dns
+    c.pop("tcp", None)
+    c["tcp_script"] = draw(
+        st.lists(
+            st.sampled_from([["ok", 4], ["ok", 1], ["refuse", 4], ["refuse", 64 * 20], ["oserror", 2], ["hang"], ["ok", 64 * 59], ["ok", 64 * 61]]),
+            min_size=1,
+            max_size=3,
+        )
+    )
+    return c
+
+
+@st.composite
+def _silence_case(draw, tier):
+    c = draw(life.case_strategy(tier, max_events=2))
+    c["tcp"] = "ok"
+    m = draw(st.integers(0, 2))
+    if m == 0:
+        c["auto"] = False
+        # wrong-order / partial answers fed by hand
+        frames = draw(st.lists(st.sampled_from(["connresp", "hello", "hello", "pong", "state", "devinfo", "discresp"]), min_size=1, max_size=3))
+        c["events"].append({"do": "chunk", "frames": frames, "at": draw(st.integers(17, 40))})
+    else:
+        c["events"].append({"do": "silence", "at": draw(st.one_of(st.integers(0, 40), st.integers(0, 256 * 40)))})
+    return c
+
+
+def _first_cause_cases(tier):
+    for noise in (False, True):
+        for f1f in IMMEDIATE_F1 + [["eof"]]:
+            if f1f == ["badmac"] and not noise:
+                continue
+            for stage, t1, base in (
+                ("hello-pending", 18 if not noise else 22, {"auto": True, "latency": 8}),
+                ("request-pending", 80, {"latency": 64}),
+                ("idle", 500, {}),
+            ):
+                b = {"noise": noise, "login": True, "flow": "full", "K": 8.0, "final_at": 200.0, **base}
+                f1 = {"do": "eof", "at": t1} if f1f == ["eof"] else {"do": "chunk", "frames": f1f, "at": t1}
+                f2s = [
+                    {"f2": [{"do": "eof", "at": t1}]},
+                    {"f2": [{"do": "reset", "at": t1}]},
+                    {"f2": [{"do": "chunk", "frames": ["garbage"], "at": t1}]},
+                    {"f2": [{"do": "chunk", "frames": ["reqenc"], "at": t1 + 1}]},
+                    {"f2": [{"do": "disconnect", "at": t1}]},
+                    {"f2": [{"do": "force", "at": t1}]},
+                    {"f2": [{"do": "disconnect", "at": t1 + 1}, {"do": "eof", "at": t1 + 1}]},
+                ]
+                if f1f != ["eof"]:
+                    f2s += [{"f2_trailer": tr} for tr in (["garbage"], ["reqenc"], ["discreq"], ["badproto"], ["state"], ["state", "garbage"])]
+                for extra in f2s:
+                    yield {"kind": "first_cause", "stage": stage, "base": b, "f1": f1, **extra}
+
+
+@st.composite
+def _first_cause_random(draw, tier):
+    noise = draw(st.booleans())
+    f1f = draw(st.sampled_from([f for f in IMMEDIATE_F1 if noise or f != ["badmac"]] + [["eof"]]))
+    t1 = draw(st.one_of(st.integers(16, 40), st.integers(40, 600), st.sampled_from([2048 + 32, 2048 + 36, 2048 + 40])))
+    base = {
+        "noise": noise,
+        "login": draw(st.booleans()),
+        "flow": draw(st.sampled_from(["connect", "full", "full+disconnect"])),
+        "K": 8.0,
+        "final_at": 200.0,
+        "latency": draw(st.sampled_from([1, 4, 8, 64])),
+    }
+    f1 = {"do": "eof", "at": t1} if f1f == ["eof"] else {"do": "chunk", "frames": f1f, "at": t1}
+    case = {"kind": "first_cause", "stage": "random", "base": base, "f1": f1}
+    if f1f != ["eof"] and draw(st.booleans()):
+        case["f2_trailer"] = draw(st.lists(st.sampled_from(["garbage", "reqenc", "discreq", "badproto", "state", "ping", "unknown"]), min_size=1, max_size=2))
+    f2 = []
+    for _ in range(draw(st.integers(0, 2))):
+        act = draw(
+            st.sampled_from(
+                [{"do": "eof"}, {"do": "reset"}, {"do": "disconnect"}, {"do": "force"}, {"do": "writefail_raise"},
+                 {"do": "chunk", "frames": ["garbage"]}, {"do": "chunk", "frames": ["reqenc"]}, {"do": "chunk", "frames": ["discreq"]}]
+            )
+        )
+        f2.append({**act, "at": t1 + draw(st.sampled_from([0, 0, 1, 4, 64]))})
+    case["f2"] = f2
+    return case
+
+
 def strategy(tier):
-    return life.case_strategy(tier)
+    return st.one_of(life.case_strategy(tier), _net_case(tier), _silence_case(tier), _first_cause_random(tier))
+
+
+def enumerated(tier):
+    yield from _first_cause_cases(tier)
+    # resolver x TCP matrix for one and two addresses
+    dns_opts = [["ok", ["10.1.0.1"], 2], ["ok", ["10.1.0.1", "fd00::9"], 1], ["empty", 1], ["error", 1], ["hang"]]
+    tcp_opts = [["ok", 4], ["refuse", 4], ["oserror", 2], ["hang"]]
+    for noise in (False, True):
+        base = {"noise": noise, "login": True, "flow": "full+disconnect", "K": 8.0, "final_at": 200.0, "events": []}
+        for d in dns_opts:
+            for t1 in tcp_opts:
+                for t2 in tcp_opts:
+                    yield {**base, "addresses": ["a.example.com"], "dns": {"a.example.com": d}, "tcp_script": [t1, t2]}
+                    yield {**base, "addresses": ["a.example.com", "10.0.0.7"], "dns": {"a.example.com": d}, "tcp_script": [t1, t2]}
+        for d1 in dns_opts:
+            for d2 in dns_opts:
+                yield {**base, "addresses": ["a.example.com", "b.example.com"], "dns": {"a.example.com": d1, "b.example.com": d2}, "tcp_script": [["refuse", 2], ["ok", 2]]}
+    scs = [s for s in life.golden_scenarios() if s["flow"] != "full" or tier == "thorough"]
+    yield from life.single_fault_sweep(scs)
